@@ -47,7 +47,7 @@ Proof. exact declined_untouched. Qed.
 
 Theorem C11_rows_independent : forall O db ban fuel t tmsg ins1 ins2 rows1 rows2 st1 st2 s i j r1 r2,
   run O db ban fuel t tmsg ins1 = Done (rows1, st1) -> run O db ban fuel t tmsg ins2 = Done (rows2, st2) ->
-  nth_error (admitted O ins1) i = Some s -> nth_error (admitted O ins2) j = Some s ->
+  nth_error (kept_inputs O ins1) i = Some s -> nth_error (kept_inputs O ins2) j = Some s ->
   nth_error rows1 i = Some r1 -> nth_error rows2 j = Some r2 -> set_rid r1 0 = set_rid r2 0.
 Proof. exact run_row_independent_of_batch. Qed.
 
